@@ -3,7 +3,7 @@ import sys, os, json, re, tempfile
 import vlib
 from tlcparse import replay_lines
 
-ALL_FEATURES = ["apps", "storage", "detached", "psk", "gce", "reinit", "badkp", "custom", "observer", "succ", "extcommit"]
+ALL_FEATURES = ["apps", "storage", "detached", "psk", "gce", "reinit", "badkp", "custom", "observer", "succ", "extcommit", "caps"]
 
 def follow_batch(bs, features=None, timeout=1200, workers=8):
     """Follow a list of recorded sequences (same party set) in one TLC run; returns [(followed, model|None)] and the TLC result."""
@@ -16,6 +16,7 @@ def follow_batch(bs, features=None, timeout=1200, workers=8):
                 pskids |= set(v); pskvals |= set(v.values())
     q = lambda xs: "{" + ", ".join('"%s"' % x for x in sorted(xs)) + "}"
     feats = features or ALL_FEATURES
+    capx, capy = cfgd.get("capX") or [], cfgd.get("capY") or []
     cfg = f"""SPECIFICATION FSpec
 CONSTANTS
   Parties = {q(parties)}
@@ -38,6 +39,8 @@ CONSTANTS
   Deviations = {{"F12", "F14"}}
   MaxApps = 400
   MaxSucc = 60
+  CapX = {q(capx)}
+  CapY = {q(capy)}
   Depth = 100000
   BootSize = 0
   WProgress = 60
